@@ -4,6 +4,7 @@ import (
 	"encoding/hex"
 	"fmt"
 	"net/url"
+	"regexp"
 	"strings"
 	"testing"
 	"time"
@@ -83,11 +84,20 @@ func secretNeedles(texts []string, key []byte) []string {
 	return out
 }
 
+var hexLiteral = regexp.MustCompile(`0x[0-9a-fA-F]+`)
+
+// renderErr: the error as a caller can print it - %v, %+v and the Go-syntax %#v without its hexadecimal literals.
+func renderErr(err error) string {
+	return fmt.Sprintf("%v | %+v | ", err, err) + hexLiteral.ReplaceAllString(fmt.Sprintf("%#v", err), "0x")
+}
+
 func leak(err error, secrets []string, codes []string) string {
 	if err == nil {
 		return ""
 	}
-	msg := fmt.Sprintf("%v | %+v | %#v", err, err, err)
+	// the Go-syntax rendering prints pointers and unsigned fields as hexadecimal literals (0xc000520330): six decimal digits in
+	// a row inside an address are a coincidence, not the code (F31) — hexadecimal literals are cut out of that rendering
+	msg := renderErr(err)
 	for _, s := range secrets {
 		if strings.Contains(msg, s) {
 			return fmt.Sprintf("error text %q contains the secret (%q)", err.Error(), s)
@@ -221,7 +231,7 @@ func leakShort(err error, texts []string, recall func(string) error) string {
 	if err == nil || recall == nil {
 		return ""
 	}
-	msg := fmt.Sprintf("%v | %+v | %#v", err, err, err)
+	msg := renderErr(err)
 	const alpha = "ABCDEFGHIJKLMNOPQRSTUVWXYZ234567"
 	for _, t := range texts {
 		tr := strings.TrimSpace(t)
@@ -254,7 +264,7 @@ func leakShort(err error, texts []string, recall func(string) error) string {
 		if err2 == nil {
 			continue
 		}
-		msg2 := fmt.Sprintf("%v | %+v | %#v", err2, err2, err2)
+		msg2 := renderErr(err2)
 		if strings.Contains(msg2, altCore) && !strings.Contains(msg2, core) {
 			return fmt.Sprintf("error text %q contains the secret %q; with the secret %q the same call says %q", err.Error(), core, altCore, err2.Error())
 		}
